@@ -190,8 +190,9 @@ def _obs(case, offset=0):
     return gen.rng_array(case["data_seed"] + offset, (case["n"], case["obs_dim"]), case["obs_scale"])
 
 
-def _actions(case, policy, info, obs):
-    """Discrete: uniform indices; Gaussian heads: mean + std * z, |z| <~ 3."""
+def _actions(case, policy, info, obs, z_edit=None):
+    """Discrete: uniform indices; Gaussian heads: mean + std * z, |z| <~ 3 (``z_edit``: optional function
+    applied to the standardised residuals z before the actions are formed)."""
     jnp = _jnp()
     r = np.random.default_rng(case["data_seed"] + 17)
     if case["head"] == "softmax":
@@ -201,6 +202,8 @@ def _actions(case, policy, info, obs):
     mean = pn.tanh_mean_ref(np.asarray(y), info["scale"], info["bias"]) if case["head"] == "tanh_gaussian" \
         else np.asarray(y, dtype=np.float64)
     z = np.clip(r.standard_normal(mean.shape), -3.0, 3.0)
+    if z_edit is not None:
+        z = z_edit(z)
     return jnp.asarray((mean + std * z).astype(np.float32))
 
 
@@ -382,9 +385,9 @@ def run_pg(case):
 # ------------------------------------------------------------------------- PPO
 
 @st.composite
-def ppo_cases(draw):
+def _ppo_base_cases(draw, n_fixed=None, mode_fixed=None):
     case = draw(_base(["softmax", "softmax", "gaussian", "tanh_gaussian"]))
-    n = case["n"]
+    n = case["n"] if n_fixed is None else n_fixed
     case["critic_shape"] = draw(st.sampled_from(["N1", "N1", "N"]))
     case["critic_hidden"] = [4] if _QUICK() else draw(st.sampled_from([[4], []]))
     case["critic_seed"] = draw(gen.seeds())
@@ -392,7 +395,8 @@ def ppo_cases(draw):
     case["adv"] = draw(st.one_of(_signed_values(n, 1e3), _signed_values(n, 3.0)))
     case["ret_mode"] = draw(st.sampled_from(["near", "far"]))
     case["ret"] = draw(_signed_values(n, 1e3 if case["ret_mode"] == "far" else 2.0))
-    mode = draw(st.sampled_from(["mixed", "mixed", "mixed", "all_clipped", "unchanged"]))
+    mode = draw(st.sampled_from(["mixed", "mixed", "mixed", "all_clipped", "unchanged"])) \
+        if mode_fixed is None else mode_fixed
     case["mode"] = mode
     # region of the probability ratio, position inside it (u), and distance class from the clip boundary:
     # ratios are placed from 0.3 % beyond / inside a boundary (between 1 +- clip and exp(+-clip)) to far away
@@ -415,6 +419,67 @@ def ppo_cases(draw):
             regions[neg[draw(st.integers(0, len(neg) - 1))]][0] = draw(st.sampled_from([lo, lo, hi]))
     case["regions"] = regions
     case["k_scale"] = draw(st.sampled_from([2.5, 0.125, 1e3]))
+    return case
+
+
+# Recorded actions of extreme log-probability (class "x", about a fifth of the ppo cases).  A probability ratio is
+# a difference of log-probabilities; each of them may lie far outside the range in which float32 exp() is finite
+# and non-zero (-103 .. +88.7) while the documented objective stays perfectly ordinary:
+#   softmax_low : one output bias of the softmax net is lowered by 105..250 (optionally the others are spread in
+#                 between); drawn rows record that action (log-probability < -100), the other rows an ordinary one;
+#   gauss_far   : ordinary Gaussian head, in drawn rows one action component lies 15..20 std from the mean
+#                 (log-density < -100);
+#   gauss_high  : narrow Gaussian head with 24 / 32 action dimensions (std about e^-6 .. e^-7, means of order 1):
+#                 joint log-density of every recorded action > +90 (unchanged-parameters mode only: the float32
+#                 conditioning allowance of a 24-dimensional narrow density leaves no room for placing ratios
+#                 next to a clip boundary).
+# The network shapes of the first two come from the ordinary pools (no further compilations); gauss_high has its
+# own small pool.
+SIGS_NARROW = [(3, 2, 24, [4]), (2, 3, 32, [])]
+SIGS_NARROW_WIDE = SIGS_NARROW + [(5, 3, 24, [5, 3]), (8, 2, 40, [4]), (2, 4, 28, [7])]
+_X_KINDS = ["softmax_low", "gauss_high", "gauss_far", "softmax_low", "gauss_high"]
+
+
+@st.composite
+def ppo_cases(draw):
+    case = draw(_ppo_base_cases())
+    if draw(st.sampled_from(["none"] * 7 + ["x"] * 2)) == "none":
+        return case
+    kind = draw(st.sampled_from(_X_KINDS))
+    x = {"kind": kind}
+    quick = _QUICK()
+    if kind == "softmax_low":
+        head = "softmax"
+        sigs = [sg for sg in (SIGS_DISCRETE if quick else SIGS_DISCRETE_WIDE) if sg[0] >= 2]
+        x["gap"] = draw(st.sampled_from([120.0, 105.0, 160.0, 250.0]))
+        x["low"] = draw(st.integers(0, 6))  # index of the lowered action, modulo the number of actions
+        x["spread"] = draw(st.booleans())
+    elif kind == "gauss_far":
+        head = case["head"] if case["head"] != "softmax" else draw(st.sampled_from(["gaussian", "tanh_gaussian"]))
+        sigs = [sg for sg in (SIGS_CONT if quick else SIGS_CONT_WIDE) if sg[0] >= 2]
+        x["zfar"] = draw(st.sampled_from([15.0, -15.0, 17.0, -20.0]))
+        x["dim"] = draw(st.integers(0, 4))  # modulo the action dimension
+    else:
+        head = draw(st.sampled_from(["gaussian", "tanh_gaussian", "gaussian"]))
+        sigs = SIGS_NARROW if quick else SIGS_NARROW_WIDE
+        x["lv_bias"] = draw(st.sampled_from([-13.0, -12.0, -14.0]))
+        x["mean_scale"] = draw(st.sampled_from([1.0, 0.3]))
+        case.update(pscale=1.0, obs_scale=1.0, box="unit")
+    n, obs_dim, act_dim, hidden = draw(st.sampled_from(sigs))
+    case.update(head=head, n=n, obs_dim=obs_dim, act_dim=act_dim, hidden=list(hidden))
+    if head != "softmax" and case["pscale"] == 3.0:
+        case["obs_scale"] = 1.0  # as in _base
+    # rows that record the extreme action (softmax_low / gauss_far; every row of gauss_high is extreme)
+    rows = draw(st.lists(st.booleans(), min_size=n, max_size=n))
+    rows[draw(st.integers(0, n - 1))] = True
+    x["rows"] = rows
+    mode = "unchanged" if kind == "gauss_high" else draw(
+        st.sampled_from(["unchanged", "unchanged", "mixed", "all_clipped"]))
+    # advantages / returns / regions of the new batch size; the construction of the mixed mode as above
+    fresh = draw(_ppo_base_cases(n_fixed=n, mode_fixed=mode))
+    for k in ("adv", "ret", "ret_mode", "regions", "mode"):
+        case[k] = fresh[k]
+    case["x"] = x
     return case
 
 
